@@ -577,7 +577,7 @@ def run_history(ctx, Data, ClimateData, GeoGrid, cid, r, climate):
 def run(ctx):
     from pyunicorn.core import Data, GeoGrid
     from pyunicorn.climate import ClimateData
-    K = 40000 if ctx.thorough else 4000
+    K = 200000 if ctx.thorough else 4000
     k = 0
     while k < K and (ctx.time_left() > 0 or k < K // 2):
         k += 1
